@@ -38,7 +38,7 @@ def gen_case(rnd):
             for _ in range(rnd.choice([0, 1, 1, 2])):
                 cid += 1; cs.append(cid)
             methods.append(['m', {'contracts': cs, 'inherit': bool(bases) and rnd.random() < .6}])
-        classes.append({'name': nm, 'bases': bases, 'methods': methods, 'inherit_class': False})
+        classes.append({'name': nm, 'bases': bases, 'methods': methods, 'inherit_class': bool(bases) and rnd.random() < .2})      # @deal.inherit on the class: every method it can see
     queries = [[c['name'], 'm'] for c in classes if any(True for _ in [1])]
     # every contract is a precondition or a raises contract (get_contracts lists preconditions first)
     kinds = {str(i): ('raises' if rnd.random() < .3 else 'pre') for i in range(1, cid + 1)}
@@ -67,7 +67,22 @@ def resolves(case, cname):
 
 def monitor(case, res):
     out = []
-    defs = {c['name']: c for c in case['classes']}
+    import copy
+    defs = {c['name']: copy.deepcopy(c) for c in case['classes']}
+    # @deal.inherit on a class marks every method the class can see (its own and the ones it gets from its bases): the class then
+    # owns an inherit-marked method whose function is the one the name resolved to
+    env0 = resolves(case, case['classes'][0]['name'])[1]
+    for c in case['classes']:
+        if not c.get('inherit_class'): continue
+        d = defs[c['name']]
+        own = dict(d['methods'])
+        if 'm' in own:
+            own['m']['inherit'] = True
+        else:
+            mro0 = [k.__name__ for k in env0[c['name']].__mro__ if k is not object]
+            o2 = next((k for k in mro0 if any(m == 'm' for m, _ in defs[k]['methods'])), None)
+            if o2 is not None:
+                d['methods'].append(['m', {'contracts': list(dict(defs[o2]['methods'])['m']['contracts']), 'inherit': True}])
     for (cname, mname), r in zip(case['queries'], res):
         has, env = resolves(case, cname)
         if not has: continue
@@ -102,7 +117,9 @@ def monitor(case, res):
 
 def run(ctx, fr, model_available=True):
     rnd = random.Random(ctx.seed * 11 + 5)
-    cases = [gen_case(rnd) for _ in range(1500 if ctx.tier == 'thorough' else 250)]
+    import glob, os
+    corp = [json.load(open(f)) for f in sorted(glob.glob(os.path.join(coq.VERIF, 'corpus', 'C11', '*.json')))]
+    cases = corp + [gen_case(rnd) for _ in range(1500 if ctx.tier == 'thorough' else 250)]
     res = impl.run_impl('c11_classes.py', cases)
     mo = None
     if model_available:
@@ -132,7 +149,7 @@ def run(ctx, fr, model_available=True):
                 ml = head + '=' + ','.join(ids) + ' mro=' + mro_s
                 il = rr['line']
                 # the MRO printed by CPython ends with object, as the model's
-                if h and ml != il:
+                if h and ml != il and not any(c.get('inherit_class') for c in case['classes']):      # class-level inherit: monitor only
                     fr.disagreements.append({'scenario': case, 'impl': il, 'model': ml}); break
     fr.rule = RULE
     fr.samples.append({'case': cases[0], 'impl': res[0]})
